@@ -22,10 +22,12 @@
       every storage is unchanged; hypothesis: the new darts lie in pairwise distinct vertices of the result.
       `C14_lerp_ratio`, `C14_lerp_collinear`, `C14_lerp_strictly_between`, `C14_lerp_order` over ℚ.
 
+  CONTINUED in Props/C14b.lean: the exact β tables after `insert_vertices_on_edge` and `insert_vertex_on_edge` (chain base → nd₁ → … → nd_k → old
+  successor on both sides, reversed β2 pairing, every other image unchanged), the vertices of the new darts (pairwise
+  distinct), and `C14_new_vertex_position_full` (the position theorem without side hypothesis).
+
   NOT PROVED (validated on every case by the oracle of tools/props/c14.py)
-  * the exact β images after a successful call (chain base → nd₁ → … → nd_k → old successor, reversed β2 pairing,
-    every other image unchanged), that the vertex orbits of the end points keep their dart sets, and that the new
-    darts lie in pairwise distinct vertices (hypothesis of `C14_new_vertex_position`);
+  * that the vertex orbits of the two end points keep their dart sets;
   * the `UndefinedEdge` error as an exact characterisation (needs totality of the vertex-id BFS on well-formed
     maps); the direction "Ok ⇒ both end points defined" is part of `C14_ok_implies_guards`.
   The freeness test is transactional since /repo cc2bcd4 (former finding D3 of C08): the kernels are plain
